@@ -63,6 +63,16 @@ fn significant(pair: Pair<'_, Rule>) -> impl Iterator<Item = Pair<'_, Rule>> {
     pair.into_inner().filter(|p| p.as_rule() != Rule::COMMENT)
 }
 
+/// Array bounds are any digit string in the grammar but must fit [`Count`].
+fn parse_array_len(digits: &str) -> Count {
+    digits.parse().unwrap_or_else(|_| {
+        idlc_errors::unrecoverable!(
+            "Array size `{digits}` is out of range, expected 1..={}",
+            Count::MAX
+        )
+    })
+}
+
 impl From<pest::Span<'_>> for Span {
     fn from(value: pest::Span) -> Self {
         Self {
@@ -199,8 +209,7 @@ impl From<Pair<'_, Rule>> for ParamTypeIn {
             match pair.as_rule() {
                 Rule::unbounded_array => Self::Array(r#type, None),
                 Rule::bounded_array => {
-                    let array_len: Count =
-                        ast_unwrap!(ast_unwrap!(significant(pair).next()).as_str().parse());
+                    let array_len = parse_array_len(ast_unwrap!(significant(pair).next()).as_str());
                     Self::Array(r#type, Some(array_len))
                 }
                 _ => unreachable!(),
@@ -225,8 +234,7 @@ impl From<Pair<'_, Rule>> for ParamTypeOut {
             match pair.as_rule() {
                 Rule::unbounded_array => Self::Array(r#type, None),
                 Rule::bounded_array => {
-                    let array_len: Count =
-                        ast_unwrap!(ast_unwrap!(significant(pair).next()).as_str().parse());
+                    let array_len = parse_array_len(ast_unwrap!(significant(pair).next()).as_str());
                     Self::Array(r#type, Some(array_len))
                 }
                 _ => unreachable!(),
@@ -275,11 +283,9 @@ fn parse_struct(pair: Pair<Rule>) -> Rc<Node> {
                 let next = ast_unwrap!(iter.next());
                 let (elem, ident) = match next.as_rule() {
                     Rule::bounded_array => {
-                        let array_len: Count = ast_unwrap!(ast_unwrap!(
-                            significant(next.clone()).next()
-                        )
-                        .as_str()
-                        .parse());
+                        let array_len = parse_array_len(
+                            ast_unwrap!(significant(next.clone()).next()).as_str(),
+                        );
                         let ident = ast_unwrap!(iter.next()).as_str().to_string();
                         (array_len, ident)
                     }
